@@ -51,10 +51,14 @@ func (c split) Recv() ([]byte, error) {
 			continue // incomplete line
 		}
 		line := buf.Bytes()
-		if n := len(line) - 1; n >= 0 {
-			return line[:n], err
+		if err == nil {
+			return line[:len(line)-1], nil // strip the delimiter
+		} else if len(line) == 0 {
+			return nil, err
 		}
-		return nil, err
+		// The stream ended without a delimiter; report what was read, intact,
+		// together with the error.
+		return line, err
 	}
 }
 
